@@ -2,8 +2,8 @@
    SEG  : the extracted incremental receiver `feed` runs on the REAL bytes of one direction of a recorded
           connection, in the given chunks.  The Section variables are instantiated with
             open       = lookup in the per-case table (nonce, ciphertext) -> plaintext   (None if absent)
-            parse_meta = meta_parse_c now                                                 (extracted)
-            le_decode  = LowEntropy.decode                                               (extracted)
+            parse_meta = parse_w now   (model/TcpStreamWire.v over model/Wire.v; cross-checked with meta_parse_c)
+            le_decode  = le_decode_w   (model/TcpStreamWire.v over model/LowEntropy.v)
    PLAN : plan_events on the recorded send-side history of one session.
    READ : read1 on the recorded arrivals; the number of payloads that had arrived when a Read ran is not
           observable, so the runner is an acceptor: it looks for the arrival count that explains the
@@ -45,11 +45,20 @@ let run_seg (f : string array) =
   let nbox = int_of_string f.(2) in
   let stream = f.(Array.length f - 1) in
   let tbl : (string, n list) Hashtbl.t = Hashtbl.create (2 * nbox + 1) in
+  let disagree = ref "" in
   (* the receiver's clock (minutes) at the time it parsed a metadata block, recorded by the driver *)
   let clock : (string, n) Hashtbl.t = Hashtbl.create (nbox + 1) in
+  (* parse_w = the metadata layout of model/Wire.v (the function of the ..._concrete theorems).  On every real
+     block the hand-written meta_parse_c must agree with it, and whatever it accepts must satisfy meta_ok_w (the
+     explicit side condition of the concrete theorems) and re-marshal to the same 32 bytes. *)
   let parse_meta_inst (mp : n list) : minfo option =
     let nw = match Hashtbl.find_opt clock (str_of_bytes mp) with Some m -> m | None -> now in
-    meta_parse_c nw mp in
+    let r = parse_w nw mp in
+    if r <> meta_parse_c nw mp then (disagree := "meta_parse_c<>parse_w"; None)
+    else match r with
+      | Some mi when not (meta_ok_w nw mi) -> (disagree := "accepted-but-not-meta_ok_w"; None)
+      | Some mi when marshal_w mi <> mp -> (disagree := "marshal_w(parse_w)<>bytes"; None)
+      | _ -> r in
   for i = 0 to nbox - 1 do
     match String.split_on_char ':' f.(3 + i) with
     | [nonce; ct; pt; minute] ->
@@ -73,7 +82,7 @@ let run_seg (f : string array) =
     let sz = int_of_string f.(4 + nbox + i) in
     let chunk = bytes_of_sub stream !pos sz in
     pos := !pos + sz;
-    let (segs, st') = feed opn parse_meta_inst le_decode_inst !st chunk in
+    let (segs, st') = feed opn parse_meta_inst le_decode_w !st chunk in
     st := st';
     List.iter (fun ((mi, pl) : rseg) ->
       Buffer.add_string out (Printf.sprintf "%d:%d:%d:%d:%d:%d:%d:%d:%s "
@@ -81,6 +90,7 @@ let run_seg (f : string array) =
         (int_of_n mi.mi_pre) (int_of_n mi.mi_suf) (int_of_n mi.mi_elen) (md5 pl))) segs
   done;
   Buffer.add_string out (Printf.sprintf "| left=%d fail=%s" (List.length !st.r_buf) (bool_s !st.r_failed));
+  if !disagree <> "" then Buffer.add_string out (" DISAGREE:" ^ !disagree);
   print_endline (Buffer.contents out)
 
 let zeros k = List.init k (fun _ -> N0)
